@@ -148,6 +148,30 @@ pub async fn quirk_sig(got: &BTreeSet<i64>, exp: &BTreeSet<i64>, pred: &Pred, sq
     }
 }
 
+pub const COERCE_SIG: &str = "lance-simplifies-before-type-coercion-inlist-merge-wrong";
+
+/// Attribute a deviation to Lance running DataFusion's simplifier *before* type coercion
+/// (planner.rs optimize_expr): literals under NOT / IS are still Int64 / Float64 / Utf8 while
+/// top-level ones were coerced to the column type, so the in-list set operations compare
+/// differently typed literals. Conditions: mergeable IN / = leaves on one column whose type is not
+/// the SQL literal's default type, and DataFusion's complete SQL pipeline (which coerces first)
+/// returns the expected rows.
+pub async fn coercion_sig(got: &BTreeSet<i64>, exp: &BTreeSet<i64>, pred: &Pred, sql: &str, m: &Model, df: &DfRef) -> Option<&'static str> {
+    if got == exp || !pred.has_mergeable_inlists_same_column() {
+        return None;
+    }
+    let mut cols = BTreeSet::new();
+    pred.columns(&mut cols);
+    let odd_type = cols.iter().any(|c| !matches!(m.cols[*c].ty, ColTy::I64 | ColTy::F64 | ColTy::Utf8 | ColTy::Bool));
+    if !odd_type {
+        return None;
+    }
+    match df.ids_where_full_sql(sql).await {
+        Ok(b) if &b == exp => Some(COERCE_SIG),
+        _ => None,
+    }
+}
+
 pub async fn reference(pred: &Pred, sql: &str, m: &Model, df: &DfRef) -> RefOutcome {
     let a = ref_ids(pred, m);
     match df.ids_where(sql).await {
@@ -516,6 +540,7 @@ pub fn run(args: &Args) -> i32 {
                     }
                     // size of a scan result that was attributed to the DataFusion in-list quirk (count_rows is classified alike)
                     let mut quirk_count: Option<usize> = None;
+                    let mut coerce_count: Option<usize> = None;
                     let mut base_rejected: Option<bool> = None;
                     let mut executed = false;
                     for (ki, knobs) in knob_sets.iter().enumerate() {
@@ -560,6 +585,9 @@ pub fn run(args: &Args) -> i32 {
                                         if let Some(qs) = quirk_sig(&got_set, &ids, &pred, &sql, m, &df).await {
                                             sig = qs.to_string();
                                             quirk_count = Some(got_set.len());
+                                        } else if let Some(cs) = coercion_sig(&got_set, &ids, &pred, &sql, m, &df).await {
+                                            sig = cs.to_string();
+                                            coerce_count = Some(got_set.len());
                                         }
                                     }
                                     // narrow class: on a legacy table the same query with use_stats(false)
@@ -629,7 +657,7 @@ pub fn run(args: &Args) -> i32 {
                                 report.count("count_rows_checked", 1);
                                 if n as usize != ids.len() {
                                     report.violation(
-                                        &(if quirk_count == Some(n as usize) { DF_NOT_IN_SIG.to_string() } else { legacy_count_sig("count-rows-differs-from-result", stats_off_count_ok && ck.use_stats != Some(false)) }),
+                                        &(if quirk_count == Some(n as usize) { DF_NOT_IN_SIG.to_string() } else if coerce_count == Some(n as usize) { COERCE_SIG.to_string() } else { legacy_count_sig("count-rows-differs-from-result", stats_off_count_ok && ck.use_stats != Some(false)) }),
                                         &format!("Scanner::count_rows = {n}, reference/result = {}", ids.len()),
                                         witness(&ck, json!({"count": n, "expected": ids.len()})),
                                     );
@@ -645,7 +673,7 @@ pub fn run(args: &Args) -> i32 {
                             Ok(n) => {
                                 if n != ids.len() {
                                     report.violation(
-                                        &(if quirk_count == Some(n) { DF_NOT_IN_SIG.to_string() } else { legacy_count_sig("dataset-count-rows-differs-from-result", stats_off_count_ok) }),
+                                        &(if quirk_count == Some(n) { DF_NOT_IN_SIG.to_string() } else if coerce_count == Some(n) { COERCE_SIG.to_string() } else { legacy_count_sig("dataset-count-rows-differs-from-result", stats_off_count_ok) }),
                                         &format!("Dataset::count_rows = {n}, reference/result = {}", ids.len()),
                                         witness(&Knobs::default(), json!({"count": n, "expected": ids.len()})),
                                     );
